@@ -196,6 +196,7 @@ def _r1(ctx, m):
         if lst and lst[0][0][0] == "meth" and lst[0][0][2] == "_assign_rates" and any(simp(a) == m.REAC for a in lst[0][0][3]):
             rname = nm
     stores = [f for f in fl.facts if f.target == rname and f.kind not in ("init",)]
+    _truthiness_selection(ctx, m)
     if len(stores) != 1:
         (ctx.bad if stores else ctx.missing)("R1", "rateeqns:writers", W,
                                              f"expected exactly one override store into rateeqns, found {len(stores)} ({[f.kind + '@' + str(f.line) for f in stores]})")
@@ -242,6 +243,91 @@ def _r1(ctx, m):
         ctx.check(not brk, "R1", "override:no-early-exit", (FILE, brk[0].line if brk else f.line),
                   "neither loop is left early: reactions sharing an index are all overridden",
                   found="; ".join(f"{x.kind}@{x.line}" for x in brk))
+
+
+def _truthiness_selection(ctx, m):
+    """Whether an override applies is a question of PRESENCE of the key; the override VALUE (a user expression, possibly the number
+    0 that switches a reaction off) is never used as a condition.  Looked for wherever the modifier table travels: in
+    _prepare_ode_content and in every method of TemplateLoader the table is handed to."""
+    from ..valueflow import Flow, walk
+    pkg = package(ctx.tree)
+    todo = [(m.func, m.flow, {("param", "rate_modifier")})]
+    for f in m.flow.facts:
+        pass
+    # callees that receive the table
+    for v in [x for f in m.flow.facts if f.value is not None for x in walk(f.value)] + [x for lst in m.flow.assigns.values() for a in lst for x in walk(a[0])]:
+        if isinstance(v, tuple) and len(v) == 5 and v[0] == "meth" and v[1] == ("param", "self"):
+            _, callee = pkg.resolve("TemplateLoader", v[2])
+            if callee is None:
+                continue
+            params = [a.arg for a in callee.args.args][1:]
+            got = set()
+            for i, a in enumerate(v[3]):
+                if any(x == ("param", "rate_modifier") for x in walk(a)) and i < len(params):
+                    got.add(("param", params[i]))
+            for k, a in v[4]:
+                if any(x == ("param", "rate_modifier") for x in walk(a)):
+                    got.add(("param", k))
+            if got and not any(c is callee for c, _, _ in todo):
+                todo.append((callee, Flow(callee, FILE), got))
+    n = 0
+    for fn, fl, tables in todo:
+        derived = set(tables)
+        # locals that are the table itself (`x = table or {}`)
+        def is_table(v):
+            v = simp(v)
+            return v in derived or (v[0] == "bool" and v[1] == "Or" and v[2] and v[2][0] in derived)
+
+        def is_value(v):
+            v = simp(v)
+            if v[0] == "val" and is_table(v[1]):
+                return True
+            if v[0] == "meth" and v[2] == "get" and is_table(v[1]):
+                return True
+            if v[0] == "sub" and is_table(v[1]):
+                return True
+            if v[0] == "elem":          # an element of a list of looked-up values
+                mm = as_map(v[1]) if v[1][0] in ("comp", "copy") else None
+                return bool(mm) and is_value(mm[1])
+            if v[0] == "bv":
+                for lp in fl.all_loops.values():
+                    if v in lp.bvals and is_value(lp.bvals[v]):
+                        return True
+            return False
+        conds = []
+        for f in fl.facts:
+            conds += [(c, f.line) for c, _ in f.guards]
+            if f.value is not None:
+                for x in walk(f.value):
+                    if isinstance(x, tuple) and x:
+                        if x[0] in ("ifexp", "phi") and len(x) == 4:
+                            conds.append((x[1], f.line))
+                        elif x[0] == "bool" and len(x) == 3:
+                            conds += [(y, f.line) for y in x[2][:-1]]
+                        elif x[0] == "comp":
+                            conds += [(c, f.line) for g in x[3] for c in g[2]]
+        for lst in fl.assigns.values():
+            for a in lst:
+                for x in walk(a[0]):
+                    if isinstance(x, tuple) and x:
+                        if x[0] in ("ifexp", "phi") and len(x) == 4:
+                            conds.append((x[1], a[3]))
+                        elif x[0] == "bool" and len(x) == 3:
+                            conds += [(y, a[3]) for y in x[2][:-1]]
+                        elif x[0] == "comp":
+                            conds += [(c, a[3]) for g in x[3] for c in g[2]]
+        for c, line in conds:
+            c = simp(c)
+            while c[0] == "unop" and c[1] == "Not":
+                c = c[2]
+            if is_value(c):
+                n += 1
+                ctx.bad("R1", f"{fn.name}:override chosen by truthiness", (FILE, line),
+                        "the override VALUE is used as a condition: a modifier that sets a rate to the number 0 (or to an empty-looking value) is silently ignored and the "
+                        "reaction keeps its tabulated law -- presence of the key (`key in table` / `is not None`) decides, not the value",
+                        expected="test `key in rate_modifier` / `value is not None`", found=show(c)[:100])
+    if not n:
+        ctx.ok("R1", "override:presence-not-truthiness", (FILE, m.func.lineno), "no override value is used as a condition")
 
 
 def _r2(ctx):
@@ -505,6 +591,7 @@ def _r5(ctx, m):
 
 T = FILE
 MUTANTS = [
+    {"name": "override-needs-truthy-value", "file": FILE, "old": "                if key == reac.idxfromfile:", "new": "                if value and key == reac.idxfromfile:", "rules": ["R1"]},
     {"name": "render-reindexes-half-indexed", "file": RENDER, "old": '        dupes, dupidx, first = net.find_duplicate_reaction(mode="short")', "new": '        if any(r.idxfromfile == -1 for r in net.reaction_list):\n            net.reindex()\n        dupes, dupidx, first = net.find_duplicate_reaction(mode="short")', "rules": ["R8"]},
     {"name": "init-ode-modifier-update", "file": INIT, "old": '                if ode_modifier.get(key):\n                    ode_modifier[key]["factors"].append(fact)\n                    ode_modifier[key]["reactants"].append(rdep)\n                else:\n                    ode_modifier[key] = {\n                        "factors": [fact],\n                        "reactants": [rdep],\n                    }\n',
      "new": '                ode_modifier.update({key: {"factors": [fact], "reactants": [rdep]}})\n', "rules": ["R6"]},
